@@ -176,6 +176,7 @@ fn cmp_lazy(cx: &Cx, rep: &mut Report, entry: &str, vec: &str, input: &[u64], go
             cx.replay(json!({"entry": entry, "vector": vec, "input": small(input)})));
     }
     rep.max(extreme, mx as f64 / q as f64);
+    if mx < bound { rep.min(&format!("{}:slack_below_bound(words)", extreme), (bound - 1 - mx) as f64); }
     ok
 }
 
@@ -237,7 +238,7 @@ fn enumerate_pairs(cfg: &Cfg, rep: &mut Report) -> Vec<Pair> {
         }
         // (b) what get_primes yields for every bit size 2..61 (count = as many as exist, capped)
         for bits in 2..=61usize {
-            let k = if bits == 61 { cfg.pick(4, 10) } else { cfg.pick(2, 6) };
+            let k = if bits == 61 { cfg.pick(6, 8) } else { cfg.pick(3, 5) };
             let expected = ref_top_primes(m, bits, k);
             if expected.is_empty() { rep.count("bit_sizes_without_friendly_prime", &format!("N={:05}", n)); }
             else {
@@ -265,7 +266,7 @@ fn enumerate_pairs(cfg: &Cfg, rep: &mut Report) -> Vec<Pair> {
             let thi = ((1u64 << bits) - 2) / m;
             if thi >= tlo {
                 let cnt = thi - tlo + 1;
-                for _ in 0..cfg.pick(1, 2) {
+                for _ in 0..2 {
                     let start = rng.below(cnt);
                     for d in 0..cnt.min(4000) {
                         let t = tlo + (start + d) % cnt;
@@ -391,7 +392,8 @@ fn pair_case(cfg: &Cfg, case: u64, rng: &mut Rng, rep: &mut Report, p: &Pair, w:
                         rep.violation(&cx.sig(entry, "scaled_unit", "range"), format!("{}: N={} q={}: input {}*e_{} (< 4q): output[{}] = {} >= 4q = {}", entry, n, q, c, j, i, g, 4 * q), cx.replay(json!({"entry": entry, "unit": j, "coefficient": c})));
                         break;
                     }
-                    if g % q != want {
+                    let mut gr = g; if gr >= 2 * q { gr -= 2 * q; } if gr >= q { gr -= q; }
+                    if gr != want {
                         alive[1] = false;
                         rep.violation(&cx.sig(entry, "scaled_unit", "value"), format!("{}: N={} q={} psi={}: input {}*e_{}: output[{}] = {} = {} mod q, the definition gives {}", entry, n, q, psi, c, j, i, g, g % q, want), cx.replay(json!({"entry": entry, "unit": j, "coefficient": c})));
                         break;
@@ -437,7 +439,8 @@ fn pair_case(cfg: &Cfg, case: u64, rng: &mut Rng, rep: &mut Report, p: &Pair, w:
                         rep.violation(&cx.sig(entry, "scaled_unit", "range"), format!("{}: N={} q={}: input {}*e_{} (< 2q): output[{}] = {} >= 2q = {}", entry, n, q, c, j, t, g, 2 * q), cx.replay(json!({"entry": entry, "unit": j, "coefficient": c})));
                         break;
                     }
-                    if g % q != want {
+                    let gr = if g >= q { g - q } else { g };
+                    if gr != want {
                         alive[3] = false;
                         rep.violation(&cx.sig(entry, "scaled_unit", "value"), format!("{}: N={} q={} psi={}: input {}*e_{}: output[{}] = {} = {} mod q, expected {}", entry, n, q, psi, c, j, t, g, g % q, want), cx.replay(json!({"entry": entry, "unit": j, "coefficient": c})));
                         break;
@@ -590,7 +593,9 @@ fn dense_job(cx: &Cx, rep: &mut Report, rng: &mut Rng, t1: &NTTTables, r: &RefT,
                 ok = false;
                 rep.violation(&cx.sig(ei, vname, "range"), format!("{}: N={} q={}: output[{}] = {} is not below 2q = {} although every input is below 2q; input {}", ei, n, q, i, wv[i], 2 * q, small(&z)), cx.replay(json!({"entry": ei, "vector": vname, "input": small(&z)})));
             }
-            rep.max("inverse_lazy_output_over_q", *wv.iter().max().unwrap() as f64 / q as f64);
+            let mx = *wv.iter().max().unwrap();
+            rep.max("inverse_lazy_output_over_q", mx as f64 / q as f64);
+            if mx < 2 * q { rep.min("inverse_lazy_output_over_q:slack_below_bound(words)", (2 * q - 1 - mx) as f64); }
             // strict inverse of the reduced input gives exactly the residues
             let mut ws = zr.clone();
             if ok && call(cx, rep, E_INV, &format!("reduced({})", vname), || t1.inverse_ntt_negacyclic_harvey(&mut ws)).is_some() {
@@ -797,7 +802,7 @@ pub fn run(cfg: &Cfg, rep: &mut Report) -> PropMeta {
 
     PropMeta {
         id: "C09", level: "exploration",
-        rule: "degrees N = 2..2^11 (quick) / 2..2^13 (thorough) x moduli {every prime = 1 mod 2N below 2^12; the primes get_primes(2N, bits, k) yields for every bit size 2..61 where any exist (k = 2/6, 61 bits: 4/10); 1/2 seed-dependent random friendly primes per bit size}. Per (N,q): root checks (psi^N = -1, psi = brute-force minimal primitive 2N-th root, three independently constructed tables - one on another thread - word-identical, one more in a second process); ALL N unit vectors through forward strict, forward lazy (scaled by 1, q-1, 4q-1, random psi^d + kq < 4q), inverse strict, inverse lazy (scaled by 1, q-1, 2q-1, random < 2q) against the column formula; dense vectors (random, all(q-1), lazy maxima all(4q-1) / all(2q-1), boundary mixes) against the O(N^2) definition, both round trips; dyadic product of transforms vs schoolbook negacyclic product (N <= 512 quick / 2048 thorough; sparse x dense and the closed form of (sum X^i)^2 above); negacyclic_shift for EVERY s in 0..2N-1. The sub-space {N <= 512, q < 4096} x unit vectors x shifts is enumerated completely. evaluations = vectors/shifts checked; distinct = (N, modulus bits, vector kind) classes",
+        rule: "degrees N = 2..2^11 (quick) / 2..2^13 (thorough) x moduli {every prime = 1 mod 2N below 2^12; the primes get_primes(2N, bits, k) yields for every bit size 2..61 where any exist (k = 3 quick / 5 thorough, 61 bits: 6 / 8); 2 seed-dependent random friendly primes per bit size}. Per (N,q): root checks (psi^N = -1, psi = brute-force minimal primitive 2N-th root, three independently constructed tables - one on another thread - word-identical, one more in a second process); ALL N unit vectors through forward strict, forward lazy (scaled by 1, q-1, 4q-1, random psi^d + kq < 4q), inverse strict, inverse lazy (scaled by 1, q-1, 2q-1, random < 2q) against the column formula; dense vectors (random, all(q-1), lazy maxima all(4q-1) / all(2q-1), boundary mixes) against the O(N^2) definition, both round trips; dyadic product of transforms vs schoolbook negacyclic product (N <= 512 quick / 2048 thorough; sparse x dense and the closed form of (sum X^i)^2 above); negacyclic_shift for EVERY s in 0..2N-1. The sub-space {N <= 512, q < 4096} x unit vectors x shifts is enumerated completely. evaluations = vectors/shifts checked; distinct = (N, modulus bits, vector kind) classes",
         assumptions: vec![
             "u128 arithmetic of rustc; refm (Miller-Rabin with the 12 fixed bases is deterministic below 2^64)".into(),
             "documented lazy ranges: forward [0,4q) -> [0,4q) (rns.rs:725-732, ntt.rs:161-162); inverse [0,2q) -> [0,2q) (butterfly invariant of transform_from_rev, callers in evaluator.rs:1296-1304). Inverse-lazy inputs in [2q,4q) are probed but counted out of precondition".into(),
